@@ -415,7 +415,7 @@ KROME_FORMATS = [
     "IDX,R,R,P,P,P,TMIN,TMAX,RATE",
     "idx,r,r,p,p,p,tmin,tmax,rate",
 ]
-KROME_LIMITS = [("NONE", -1.0), ("N", -1.0), ("10", 10.0), (">10", 10.0), (".GE.10", 10.0), ("1d1", 10.0), ("1.5d2", 150.0), ("<1d4", 1e4), (".LT.1d4", 1e4), ("2.5e3", 2500.0), (".5d3", 500.0), ("<.75e2", 75.0), (".GE..25d2", 25.0)]
+KROME_LIMITS = [("NONE", -1.0), ("N", -1.0), ("10", 10.0), (">10", 10.0), (".GE.10", 10.0), ("1d1", 10.0), ("1.5d2", 150.0), ("<1d4", 1e4), (".LT.1d4", 1e4), ("2.5e3", 2500.0), (".5d3", 500.0), ("<.75e2", 75.0), (".GE..25d2", 25.0), ("1.0d+1", 10.0), (".LE.2.8d+2", 280.0), ("1d+04", 1e4), ("2.5e+3", 2500.0)]
 KROME_NAMES = ["H", "HCO+", "H-", "E", "C2H5OH", "He+", "H2"]
 
 
